@@ -145,6 +145,13 @@ def build_h2(N):
             H.c(f"plan[{i}] = nondet_uchar(); __CPROVER_assume(plan[{i}] < 3);")
         sc.init_sched(H, S, N)
         sc.havoc_tx_results(H, S, N)
+        # any transaction may be parked behind its own commit boundary (error before the prefix reached it); finalized ones are not
+        H.cvar("parked_done", "_Bool", dims=[N], shared=False)
+        for i in range(N):
+            H.c(f"parked_done[{i}] = 0;")
+        for i in range(1, N):
+            dsn = "tx_dependency.dependent_state.e.data"
+            H.c(f"if (nondet_bool()) {{ {H.lv(S, dsn + '.dependency.d', [i])} = 1; {H.lv(S, dsn + '.dependency.Some.0', [i])} = {i}; {H.lv(S, 'tx_dependency.index')} = {N}; }}")
         fin = H.lv(S, "scheduler_ctx.finality")
         H.c(f"{fin} = nondet_usize(); __CPROVER_assume({fin} <= {N}); fin_seen_max = {fin};")
         H.c(f"{H.lv(S, 'results.data.len')} = 0; {H.lv(S, 'results.locked')} = 0;")
@@ -185,6 +192,10 @@ def build_h2(N):
         H.assert_(f"!{bad} || ({ab} && {rset} && (foreign_abort || ({rd} == {H.variant(rv, '', 'ParallelError')} && {H.lv(rv, 'ParallelError.txid')} == {com})))",
                   "a finalized transaction without a usable result aborts with a parallel error naming it")
         H.assert_(f"{com} == {N} || {ab}", "the loop only returns early when aborted")
+        ds = "tx_dependency.dependent_state.e.data"
+        for i in range(1, N):
+            H.assert_(f"!({i} <= {com}) || ({H.lv(S, ds + '.dependency.d', [i])} == 0 && {H.lv(S, 'tx_dependency.index')} <= {i}) || parked_done[{i}]",
+                      f"committing tx {i - 1} releases tx {i} parked behind its own commit boundary (barrier cleared, cursor rewound)")
         H.cover(f"{d} == {err} && {com} == 1", "error at step 1 with a committed prefix of 1")
         H.cover(f"{com} == {N}", "whole block committed")
         H.cover(f"{fb} && {com} == 2", "fallback request after two commits")
@@ -260,7 +271,8 @@ def exec_stub_err(tr, c):
     """executor.execute_incarnation -> ghost: the attempt reads the (abstract) state version once, somewhere during the
     attempt, and fails with a solver-chosen error class; it may or may not report estimate blockers."""
     d = c.dest()
-    tr.emit("__CPROVER_atomic_begin(); seen_version = x_version; attempt_started = 1; __CPROVER_atomic_end();")
+    tr.emit("__CPROVER_atomic_begin(); start_commit = S_scheduler_ctx_committed_0_v; attempt_started = 1; __CPROVER_atomic_end();")
+    tr.emit("__CPROVER_atomic_begin(); seen_version = x_version; __CPROVER_atomic_end();")
     res = d.node.f("result")
     acc = d.node.f("accesses")
     erri = res.vindex("Err")
@@ -283,25 +295,27 @@ def build_h5(N=2):
         H = hz.Harness(tr, "c04_h5")
         S = H.shared("S", "Scheduler<DB>")
         sc.freeze_sched(H, S, N)
-        H.cvar("x_version", "unsigned char"); H.cvar("seen_version", "unsigned char"); H.cvar("attempt_started", "_Bool")
+        H.cvar("x_version", "unsigned char"); H.cvar("seen_version", "unsigned char"); H.cvar("attempt_started", "_Bool"); H.cvar("start_commit", "usize")
         H.param("err_invalid", "_Bool"); H.param("blocked_on", "_Bool")
-        H.c("err_invalid = nondet_bool(); blocked_on = nondet_bool(); x_version = 0; seen_version = 99; attempt_started = 0;")
+        H.c("err_invalid = nondet_bool(); blocked_on = nondet_bool(); x_version = 0; seen_version = 99; attempt_started = 0; start_commit = 99;")
         sc.init_sched(H, S, N)
         sc.init_ctx(H, S, N)
         sc.init_tx_tables(H, S, N, L=2)
         t = 1
-        # tx 0 executed once and validated (Unconfirmed, finalised); tx 1 is claimed for its first incarnation
-        H.c(f"{H.lv(S, 'tx_states.e.data.status.d', [0])} = {H.variant(H.nav(S, 'tx_states.e.data.status'), '', 'Finality')}; {H.lv(S, 'tx_states.e.data.incarnation', [0])} = 1;")
-        H.c(f"{H.lv(S, 'tx_states.e.data.status.d', [t])} = {H.variant(H.nav(S, 'tx_states.e.data.status'), '', 'Executing')}; {H.lv(S, 'tx_states.e.data.incarnation', [t])} = 1;")
-        H.c(f"{H.lv(S, 'scheduler_ctx.finality')} = 1; {H.lv(S, 'scheduler_ctx.validation')} = 1; {H.lv(S, 'tx_dependency.index')} = 2;")
-        H.c(f"{H.lv(S, 'scheduler_ctx.execution_frontier.executed.e', [0])} = 1; {H.lv(S, 'scheduler_ctx.execution_frontier.frontier')} = 1;")
+        stn = H.nav(S, 'tx_states.e.data.status')
+        # tx 0 is still inside its first execution on another worker; tx 1 has just been claimed for its first incarnation
+        H.c(f"{H.lv(S, 'tx_states.e.data.status.d', [0])} = {H.variant(stn, '', 'Executing')}; {H.lv(S, 'tx_states.e.data.incarnation', [0])} = 1;")
+        H.c(f"{H.lv(S, 'tx_states.e.data.status.d', [t])} = {H.variant(stn, '', 'Executing')}; {H.lv(S, 'tx_states.e.data.incarnation', [t])} = 1;")
+        H.c(f"{H.lv(S, 'scheduler_ctx.finality')} = 0; {H.lv(S, 'scheduler_ctx.validation')} = 0; {H.lv(S, 'tx_dependency.index')} = 2;")
         H.c(f"{H.lv(S, 'tx_dependency.dependent_state.e.data.onboard', [0])} = 0; {H.lv(S, 'tx_dependency.dependent_state.e.data.onboard', [t])} = 0;")
         w = H.thread("worker"); H.enter(w)
         task = H.local("task", "Option<Task>")
         H.call("Scheduler::execute_task", [H.ref(S), hz.VUnit(), hz.VUnit(), VAgg([H.val(str(t)), H.val("1")])], task)
         cm = H.thread("pred_and_commit"); H.enter(cm)
-        # the predecessor's writes become visible (MV memory / committed state) strictly before its commit is published
+        # the predecessor publishes its writes (MV memory), is validated and finalised, and only then committed
         H.c("__CPROVER_atomic_begin(); x_version = 1; __CPROVER_atomic_end();")
+        H.c(f"__CPROVER_atomic_begin(); {H.lv(S, 'tx_states.e.data.status.d', [0])} = {H.variant(stn, '', 'Finality')}; __CPROVER_atomic_end();")
+        H.call("SchedulerContext::publish_finality", [H.ref(S, "scheduler_ctx"), H.val("1")])
         H.call("SchedulerContext::publish_commit", [H.ref(S, "scheduler_ctx"), H.val("1")])
         H.call("TxDependency::commit", [H.ref(S, "tx_dependency"), H.val("0")])
         H.post()
@@ -311,6 +325,8 @@ def build_h5(N=2):
         fb = f"({ab} && {rs} && {rd} == {H.variant(rv, '', 'FallbackSequential')})"
         H.assert_(f"!{fatal} || seen_version == 1",
                   "stale-error-at-head: a fatal EVM error is only reported for an attempt that read the state left by its committed predecessors")
+        H.assert_(f"!{fatal} || start_commit == {t}",
+                  "exact prefix: a fatal error for tx k is only raised by an attempt that began when the committed boundary was already k")
         # a stale *invalid-transaction* verdict at the head only requests sequential fallback, which re-validates the transaction
         # against committed state: harmless, hence not asserted.
         H.assert_(f"!{fatal} || ({H.lv(rv, 'FatalEvmError.0')} == {t} && !err_invalid && !blocked_on)", "the fatal abort names the failing transaction and is not raised for an invalid / blocked attempt")
